@@ -18,4 +18,14 @@ CHECKS = {
        "internal/atomic.Value method), Go's memory model between yield points. Bounded populations; unbounded thread counts "
        "are not proved.",
   technique="TLA+ refinement (Promise => PromiseAbs) model-checked with TLC; schedule replay + TLC trace validation of the real code"),
+ "C19": dict(
+  text="TLC checks that Cow.tla (the blocks between the yield points of load/copyOnWrite, ComputeIf as read / locked "
+       "re-check+write) refines the atomic map CowAbs for every program of 3 threads x 1 op and 2 threads x 2 ops (thorough: "
+       "3 x 2) over a 14-operation alphabet, and rejects check-then-act. Schedules from an edge cover of exported graphs, "
+       "exhaustive DFS and random schedules are run on the real CopyOnWriteMap under the cooperative scheduler, plus real "
+       "parallel goroutines without it; TLC searches a linearization for every recorded call/return history (TraceCowAbs) and "
+       "a history without one - differing ComputeIfAbsent results, a lost update, a panic - is a violation.",
+  note="Trusted: TLC, the scheduler, the logging discipline (Call logged before, Ret after the real call). 2-4 threads, <= 3 "
+       "operations per thread, 3 keys; parallel runs sample the real scheduler, they do not enumerate it.",
+  technique="TLA+ refinement checked by TLC; linearizability of recorded histories decided by TLC trace validation"),
 }
